@@ -23,6 +23,7 @@ type Program struct {
 	fset    *token.FileSet
 	funcs   map[string]*ssa.Function // key → function (all functions of loaded packages, incl. closures)
 	dryMemo map[*ssa.Function]map[*ssa.BasicBlock]map[string]bool
+	drySorts map[string]string
 	repo    string
 	loadS   float64
 }
@@ -52,7 +53,7 @@ func loadProgram(repo string, patterns []string, specDir string) (*Program, erro
 	}
 	prog, spkgs := ssautil.Packages(pkgs, ssa.GlobalDebug|ssa.InstantiateGenerics)
 	p := &Program{pkgs: pkgs, prog: prog, spkgs: spkgs, cs: newContractSet(), funcs: map[string]*ssa.Function{},
-		dryMemo: map[*ssa.Function]map[*ssa.BasicBlock]map[string]bool{}, repo: repo}
+		dryMemo: map[*ssa.Function]map[*ssa.BasicBlock]map[string]bool{}, drySorts: map[string]string{}, repo: repo}
 	if len(pkgs) > 0 {
 		p.fset = pkgs[0].Fset
 	}
@@ -244,6 +245,9 @@ func (p *Program) dryWrittenFor(fn *ssa.Function) map[*ssa.BasicBlock]map[string
 		g.execBody(st, "true")
 	}()
 	p.dryMemo[fn] = g.written
+	for k, v := range ctx.compSort {
+		p.drySorts[k] = v // component sorts are global (derived from Go types)
+	}
 	return g.written
 }
 
